@@ -653,18 +653,28 @@ func coqCase(c *Case) (string, map[string]int) {
 				d = c.CrashD
 			}
 			newChain := bestChain()
-			deep := func(x []int) bool { // x leaves the chain under the index below that chain's load horizon
-				if indexChain == nil || x == nil {
+			// x leaves the chain ref (what a Load would find under the index and the branch files:
+			// the chain at the last completed Save, or - the branch files being rewritten by every
+			// Clean as well - at the last completed Clean or Save) below that chain's load horizon
+			deepAgainst := func(x, ref []int) bool {
+				if ref == nil || x == nil {
 					return false
 				}
 				f := 0
-				for f < len(x) && f < len(indexChain) && x[f] == indexChain[f] {
+				for f < len(x) && f < len(ref) && x[f] == ref[f] {
 					f++
 				}
-				return f < len(indexChain)-1-d // the chains differ below the load horizon of the tip under the index
+				return f < len(ref)-1-d
 			}
-			flagged := deep(fileChain) || deep(newChain)
+			flagged := false
 			oldFile, oldIndex := fileChain, indexChain
+			switch {
+			case deepAgainst(fileChain, indexChain) || deepAgainst(newChain, indexChain):
+				flagged = true
+			case deepAgainst(newChain, fileChain):
+				flagged = true
+				oldIndex = fileChain // the reference that justifies the exclusion
+			}
 			var cos []crashObs
 			o, cos = r.crashExec(op, d)
 			if o.kind != "panic" {
